@@ -325,6 +325,36 @@ func runRoundTrip(c rtCase) rtEvent {
 		if err3 != nil || b3 == nil || b3.Get("t") != "tv" || b3.Get("id") != "three" || b3.GetType().Name != "ak3" {
 			ev.R.AttrsSame = false
 		}
+		// two soft resources of one type (one *Type, as the members of a collection or the resources a
+		// schema type creates have): a field is renamed through the first - removed, and added under a new
+		// name with the same kind, so that the type has as many fields as before - and the second, which
+		// nobody touched in between, is sent and read back against a schema that holds the type
+		if c.Impl == "soft" {
+			shared := softType("ak3", ak3Fields, kindMap{})
+			first, second := &jsonapi.SoftResource{Type: shared}, &jsonapi.SoftResource{Type: shared}
+			first.SetID("s1")
+			second.SetID("s2")
+			second.Set("t", "kept")
+			_ = second.Get("u")
+			first.RemoveField("u")
+			first.AddAttr(jsonapi.Attr{Name: "u2", Type: jsonapi.AttrTypeUint, Nullable: true})
+			s2 := &jsonapi.Schema{}
+			if s2.AddType(shared.Copy()) == nil {
+				pl := jsonapi.MarshalResource(second, "/p", []string{"t", "u2"}, nil)
+				b2, err2 := jsonapi.UnmarshalResource(pl, s2)
+				var nilUint *uint
+				if err2 != nil || b2 == nil || b2.Get("t") != "kept" || b2.Get("u2") != nilUint || b2.Get("id") != "s2" ||
+					len(b2.Attrs()) != 2 || second.Get("u2") != nilUint {
+					ev.R.AttrsSame = false
+				}
+			}
+			// the same with a kind that is not nullable: the new field reads as its zero value
+			first.RemoveField("t")
+			first.AddAttr(jsonapi.Attr{Name: "t2", Type: jsonapi.AttrTypeString})
+			if second.Get("t2") != "" || len(second.Attrs()) != 2 {
+				ev.R.AttrsSame = false
+			}
+		}
 		bo, _ := back.Get("o").(string)
 		ev.R.To1Same = bo == o
 		// what came back is the caller's: writing through its pointers and slices must not reach
@@ -1364,6 +1394,17 @@ func codecOtherModes(mode string, rng *rand.Rand, stt *stats, w *evWriter, n int
 				w.Emit(ev, c)
 			}
 		}
+		// payloads of the other types of the schema, along the life of a schema object: a type without any
+		// relationship, and a type that is removed and comes back with other fields
+		for _, impl := range []string{"soft", "wrap"} {
+			for _, sc := range ptypeScenarios {
+				c := ptCase{Fam: "codec", Mode: "ptype", Impl: impl, Scenario: sc}
+				ev := runPType(c)
+				stt.Calls += 2
+				stt.class("ptype:" + ev.Part)
+				w.Emit(ev, c)
+			}
+		}
 		// arrays of resources of several types (C06 speaks of every accepted resource payload, also
 		// inside a collection): every member keeps its own type and values
 		colTypes := [][]string{{"ak2", "ak2", "ak3", "ak2"}, {"ak3", "ak2"}, {"ak2", "ak3", "ak3", "ak2", "ak"}, {"ak"},
@@ -1546,6 +1587,139 @@ func runSelfPair(c pairCase) pairEvent {
 	return ev
 }
 
+// ---- C13: payloads of the smaller types, along the life of one schema object ---------------
+
+type ptCase struct {
+	Fam      string `json:"fam"`
+	Mode     string `json:"mode"`
+	Impl     string `json:"impl"`
+	Scenario string `json:"scenario"`
+}
+
+// what the payload is with respect to the schema at the moment of the call is a fact of the
+// scenario's construction; whether that makes it acceptable is for the specification to say
+type ptEvent struct {
+	Ev          string   `json:"ev"`
+	Impl        string   `json:"impl"`
+	Scenario    string   `json:"scenario"`
+	TypeKnown   bool     `json:"typeknown"`   // the payload's type is in the schema when the call is made
+	UnknownAttr bool     `json:"unknownattr"` // it names an attribute the type does not have (then)
+	UnknownRel  bool     `json:"unknownrel"`  // it names a relationship the type does not have (then)
+	Out         string   `json:"out"`
+	Part        string   `json:"part"`
+	WantAttrs   []string `json:"wantattrs"` // the attributes in the payload
+	WantRels    []string `json:"wantrels"`  // the relationships that carry data
+	PAttrs      []string `json:"pattrs"`
+	PRels       []string `json:"prels"`
+	PName       string   `json:"pname"`
+	TName       string   `json:"tname"`
+	ValsOK      bool     `json:"vals_ok"`
+}
+
+var ptypeScenarios = []string{"norels:plain", "norels:emptyrels", "norels:unknownrel-ident", "norels:unknownrel-nodata",
+	"norels:unknownattr", "spare:first", "spare:removed", "spare:back-new-field", "spare:back-old-field",
+	"spare:back-rel", "spare:back-old-rel"}
+
+func runPType(c ptCase) ptEvent {
+	ev := ptEvent{Ev: "ptype", Impl: c.Impl, Scenario: c.Scenario, TypeKnown: true, WantAttrs: []string{}, WantRels: []string{},
+		PAttrs: []string{}, PRels: []string{}}
+	s := buildAkSchema(c.Impl, true) // a schema of its own, with the spare type aa0 (no field) in front
+	call := func(payload string) (jsonapi.Resource, *jsonapi.SoftResource) {
+		var full jsonapi.Resource
+		var part *jsonapi.SoftResource
+		var ferr, perr error
+		if p, _ := catch(func() { full, ferr = jsonapi.UnmarshalResource([]byte(payload), s) }); p {
+			ev.Out = "panic"
+		} else if ferr != nil {
+			ev.Out = "reject"
+		} else {
+			ev.Out = "accept"
+		}
+		if p, _ := catch(func() { part, perr = jsonapi.UnmarshalPartialResource([]byte(payload), s) }); p {
+			ev.Part = "panic"
+		} else if perr != nil {
+			ev.Part = "reject"
+		} else {
+			ev.Part = "accept"
+		}
+		return full, part
+	}
+	quiet := func(payload string) { // a call of the history: whatever it does is for the judged call to show
+		catch(func() { _, _ = jsonapi.UnmarshalResource([]byte(payload), s) })
+		catch(func() { _, _ = jsonapi.UnmarshalPartialResource([]byte(payload), s) })
+	}
+	var payload string
+	wantVals := map[string]any{}
+	switch c.Scenario {
+	case "norels:plain":
+		ev.TName, ev.WantAttrs = "ak3", []string{"t"}
+		payload, wantVals["t"] = `{"type":"ak3","id":"n1","attributes":{"t":"v"}}`, "v"
+	case "norels:emptyrels":
+		ev.TName, ev.WantAttrs = "ak3", []string{"t"}
+		payload, wantVals["t"] = `{"type":"ak3","id":"n1","attributes":{"t":"v"},"relationships":{}}`, "v"
+	case "norels:unknownrel-ident":
+		ev.TName, ev.WantAttrs, ev.UnknownRel = "ak3", []string{"t"}, true
+		payload = `{"type":"ak3","id":"n1","attributes":{"t":"v"},"relationships":{"zz":{"data":{"type":"ak2","id":"q"}}}}`
+	case "norels:unknownrel-nodata":
+		ev.TName, ev.WantAttrs, ev.UnknownRel = "ak3", []string{"t"}, true
+		payload = `{"type":"ak3","id":"n1","attributes":{"t":"v"},"relationships":{"zz":{"links":{"self":"/x"}}}}`
+	case "norels:unknownattr":
+		ev.TName, ev.WantAttrs, ev.UnknownAttr = "ak3", []string{"t", "zz"}, true
+		payload = `{"type":"ak3","id":"n1","attributes":{"t":"v","zz":1}}`
+	default:
+		// the spare type: read once as it is, removed, and (for the "back" scenarios) added again with
+		// one attribute "b" and one relationship "rb" - an earlier answer is no answer for a later call
+		ev.TName = "aa0"
+		first := `{"type":"aa0","id":"h1"}`
+		if c.Scenario == "spare:first" {
+			payload = first
+			break
+		}
+		quiet(first)
+		s.RemoveType("aa0")
+		if c.Scenario == "spare:removed" {
+			ev.TypeKnown = false
+			payload = first
+			break
+		}
+		quiet(first)
+		back := jsonapi.Type{Name: "aa0"}
+		must(back.AddAttr(jsonapi.Attr{Name: "b", Type: jsonapi.AttrTypeString}))
+		must(back.AddRel(jsonapi.Rel{FromType: "aa0", FromName: "rb", ToOne: true, ToType: "ak3"}))
+		if err := s.AddType(back); err != nil {
+			infra("the spare type cannot be added again: %v", err)
+		}
+		switch c.Scenario {
+		case "spare:back-new-field":
+			ev.WantAttrs = []string{"b"}
+			payload, wantVals["b"] = `{"type":"aa0","id":"h1","attributes":{"b":"bv"}}`, "bv"
+		case "spare:back-old-field":
+			ev.WantAttrs, ev.UnknownAttr = []string{"zx"}, true
+			payload = `{"type":"aa0","id":"h1","attributes":{"zx":"v"}}`
+		case "spare:back-rel":
+			ev.WantRels = []string{"rb"}
+			payload, wantVals["rb"] = `{"type":"aa0","id":"h1","relationships":{"rb":{"data":{"type":"ak3","id":"k"}}}}`, "k"
+		case "spare:back-old-rel":
+			ev.UnknownRel = true
+			payload = `{"type":"aa0","id":"h1","relationships":{"zr":{"data":null}}}`
+		default:
+			infra("unknown ptype scenario %q", c.Scenario)
+		}
+	}
+	full, part := call(payload)
+	if ev.Part == "accept" {
+		ev.PName = part.GetType().Name
+		ev.PAttrs, ev.PRels = sortedKeys(part.Attrs()), sortedKeys(part.Rels())
+		ev.ValsOK = true
+		for f, v := range wantVals {
+			if part.Get(f) != v || (ev.Out == "accept" && full.Get(f) != v) {
+				ev.ValsOK = false
+			}
+		}
+	}
+	return ev
+}
+
 func codecRunOther(mode string, raw json.RawMessage) any {
 	switch mode {
 	case "selfpair":
@@ -1556,6 +1730,10 @@ func codecRunOther(mode string, raw json.RawMessage) any {
 		var c colCase
 		must(json.Unmarshal(raw, &c))
 		return runColPayload(c)
+	case "ptype":
+		var c ptCase
+		must(json.Unmarshal(raw, &c))
+		return runPType(c)
 	case "roundtrip":
 		var c rtCase
 		must(json.Unmarshal(raw, &c))
